@@ -13,7 +13,7 @@ for D in "$@"; do
   if ! git -C $WT apply $D/patch.diff 2>/dev/null; then echo "$name $prop PATCH-DOES-NOT-APPLY" >> $OUT; git -C /repo worktree remove --force $WT; continue; fi
   props="$prop $(cat $D/cross 2>/dev/null)"
   for p in $props; do
-    GOSYM_REPO=$WT timeout 2400 /verif/bin/gosym check $p --tier quick --evidence /tmp/matrix-ev-$name-$p.json > /tmp/matrix-$name-$p.log 2>&1
+    GOSYM_CEX_DIR=/tmp/matrix-cex GOSYM_REPO=$WT timeout 2400 /verif/bin/gosym check $p --tier quick --evidence /tmp/matrix-ev-$name-$p.json > /tmp/matrix-$name-$p.log 2>&1
     ec=$?
     nv=$(grep -c "^VIOLATION" /tmp/matrix-$name-$p.log)
     echo "$name target=$prop check=$p exit=$ec violations=$nv $(grep '^VIOLATION' /tmp/matrix-$name-$p.log | head -2 | sed 's/.*replay=.*cex.//' | tr '\n' ' ')" >> $OUT
